@@ -33,8 +33,9 @@ def corpus(tier, seed):
             if nl.state_gates():
                 for k in (1, 2, 3):
                     items.append((('nl', nl.to_json(), style), 3, f'cycle{k}'))
-    n3 = 40 if tier == 'quick' else 400
-    for j, nl in enumerate(netlist.g3_random(seed, n3)):
+    n3 = 40 if tier == 'quick' else 1200
+    g3 = netlist.g3_random(seed, n3) if tier == 'quick' else netlist.g3_random(seed, 800) + netlist.g3_random(seed + 1000, 400, max_in=8, max_gates=28, max_dff=5, max_latch=2)
+    for j, nl in enumerate(g3):
         style = ('bench', 'verilog', 'lean')[j % 3]
         sims = (1, 3, 8, 9, 17)[j % 5]
         items.append((('nl', nl.to_json(), style), sims, 'plain'))
@@ -261,7 +262,7 @@ def run(tier, seed):
                        'transitions = primitive ops executed symbolically; every obligation "captured value == ref2 for all stimuli of all lanes" is one z3 query per instance',
         'functions_encoded': common.fn_sha(LogicSim.s_to_c, LogicSim.c_prop, LogicSim.c_to_s, LogicSim.s_ppo_to_ppi, LogicSim.cycle,
                                            logic_sim._prop_cpu, ksim.SimOps.__init__, kcircuit.Circuit.topological_order),
-        'bounds': {'sims': [1, 3, 8, 9, 17], 'cycles': [1, 2, 3], 'g3_random_circuits': 40 if tier == 'quick' else 400,
+        'bounds': {'sims': [1, 3, 8, 9, 17], 'cycles': [1, 2, 3], 'g3_random_circuits': 40 if tier == 'quick' else 1200,
                    'g3_limits': 'inputs<=6 gates<=14 dff<=3 latch<=1 depth<=6', 'styles': ['bench', 'verilog', 'lean']},
         'exhaustive': False,
         'summary': f'{rep.counts["circuits"]} instances, {rep.counts["obligations"]} obligations, {rep.counts["discharged"]} discharged',
